@@ -253,6 +253,15 @@ func encodeFloat(x float64) []byte {
 
 	const numDigits = 9
 
+	// For very small numbers, math.Pow10(l-numDigits) would be subnormal or
+	// zero, and math.Log10 is not reliable for subnormal arguments.  We scale
+	// such numbers up and correct the exponent afterwards.
+	shift := 0
+	if x < 1e-290 {
+		x *= 1e100
+		shift = 100
+	}
+
 	l := int(math.Floor(math.Log10(x))) + 1
 	i := int(math.Round(x / math.Pow10(l-numDigits)))
 	if i < 100_000_000 {
@@ -262,6 +271,7 @@ func encodeFloat(x float64) []byte {
 		l++
 		i /= 10
 	}
+	l -= shift
 	// now i contains all the digits
 
 	// remove trailing zeros
